@@ -410,3 +410,10 @@ def replay(rep):
         if o.failures:
             return False, o.failures[0]["what"]
     return True, "property holds on this input"
+
+
+def shrink(inp, fails, budget_s):
+    """fewer blocks with the same verdict (identity tokens renumbered by position)"""
+    def mk(bl):
+        return dict(inp, blocks=[dict(a, val=i) for i, a in enumerate(bl)])
+    return mk(common.ddmin(inp["blocks"], lambda c: fails(mk(c)), budget_s))
